@@ -20,7 +20,7 @@ RULE = (
 REQUIRED = [
     "class.EncodedSequence", "class.StripedSequence", "class.CountMatrix", "class.WeightMatrix", "class.ScoringMatrix",
     "class.ScoreDistribution", "class.StripedScores", "alphabet.protein", "index.negative", "index.out_of_range",
-    "index.huge", "index.row_modified_then_reread", "view.elements_checked", "view.empty_object", "view.rows<K", "view.after_calculate",
+    "index.huge", "index.row_modified_then_reread", "constructor.partial_dict", "view.elements_checked", "view.empty_object", "view.rows<K", "view.after_calculate",
     "view.copy_of_scored", "view.copy_scored_again", "scores.L=M", "view.taken_before_reuse", "view.realloc_expected", "scores.L<M",
 ]
 
@@ -377,6 +377,21 @@ def family_matrices(rep, case, rng):
             rc = pssm.reverse_complement()
             rrow = [list(rc[i]) for i in range(w)]
             check_view(rep, case, "ScoringMatrix.reverse_complement()", rc, lambda i, j: rrow[i][j], "f", wit, shape=(w, k))
+    # explicit constructor from a dictionary that names only SOME symbols, in any order (the others
+    # are null columns): every cell must sit in the column of its own symbol
+    if rng.random() < 0.6:
+        w2 = rng.randint(1, 6)
+        named = [ch for ch in alphabet if rng.random() < 0.5] or [rng.choice(alphabet)]
+        rng.shuffle(named)
+        values = {ch: [rng.randint(-40, 40) * 0.25 for _ in range(w2)] for ch in named}
+        ok, partial = call(rep, case, "ScoringMatrix(partial dict)", lambda: lightmotif.ScoringMatrix(values, protein=protein), dict(wit, named="".join(named)))
+        if not ok:
+            rep.violate("c18.constructor.error", case, "ScoringMatrix(%r) raised %r" % (values, partial), wit)
+        else:
+            model = [[values[ch][i] if ch in values else 0.0 for ch in alphabet] for i in range(w2)]
+            rep.cover("constructor.partial_dict")
+            if check_indexing(rep, case, "ScoringMatrix(partial dict %s)" % "".join(named), partial, model, wit, same=lambda a, b: list(a) == list(b)):
+                check_view(rep, case, "ScoringMatrix(partial dict)", partial, lambda i, j: model[i][j], "f", wit, shape=(w2, k))
     # explicit constructor incl. the empty matrix
     if rng.random() < 0.3:
         ok, empty = call(rep, case, "ScoringMatrix(empty)", lambda: lightmotif.ScoringMatrix({alphabet[0]: []}, protein=protein), wit)
